@@ -898,13 +898,7 @@ class Fxp():
             val_dtype = object if self.n_word >= _n_word_max_ else (np.int64 if self.signed else np.uint64)
 
             # rounding and overflowing
-            scaled_val = val * conv_factor
-            if self.n_frac < 0 and not raw and isinstance(scaled_val, (np.ndarray, np.generic)) and scaled_val.dtype != object and \
-                np.issubdtype(scaled_val.dtype, np.floating):
-                # a non-zero value must not vanish when the product underflows: ceil and floor need its sign
-                _vanished = (scaled_val == 0) & (val != 0)
-                if np.any(_vanished):
-                    scaled_val = np.where(_vanished, np.copysign(5e-324, val), scaled_val)
+            scaled_val = self._scale(val, conv_factor, raw)
             new_val = self._round(scaled_val, method=self.config.rounding)
             new_val = self._overflow_action(new_val, val_min, val_max)
 
@@ -925,9 +919,12 @@ class Fxp():
             self.imag = 0
 
         else:
-            # extract real and imaginary parts
+            # extract real and imaginary parts (in double precision, whatever the precision of the complex carrier)
             new_val_real = np.vectorize(lambda v: v.real)(val)
             new_val_imag = np.vectorize(lambda v: v.imag)(val)
+            if new_val_real.dtype != object and np.issubdtype(new_val_real.dtype, np.floating) and new_val_real.dtype.itemsize < 8:
+                new_val_real = new_val_real.astype(float)
+                new_val_imag = new_val_imag.astype(float)
             
             # val_dtype determination
             _n_word_max_ = min(_n_word_max, 64)
@@ -938,8 +935,8 @@ class Fxp():
                 val_dtype = np.int64 if self.signed else np.uint64
             
             # rounding and overflowing
-            new_val_real = self._round(new_val_real * conv_factor, method=self.config.rounding)
-            new_val_imag = self._round(new_val_imag * conv_factor, method=self.config.rounding)
+            new_val_real = self._round(self._scale(new_val_real, conv_factor, raw), method=self.config.rounding)
+            new_val_imag = self._round(self._scale(new_val_imag, conv_factor, raw), method=self.config.rounding)
             # both parts in one call: the flags and the callbacks report the write once, not once per component
             new_val_parts = self._overflow_action(np.array([new_val_real, new_val_imag]), val_min, val_max)
             new_val_real, new_val_imag = np.asarray(new_val_parts[0]), np.asarray(new_val_parts[1])
@@ -1154,6 +1151,17 @@ class Fxp():
         else:
             raise ValueError('{} is not a valid config for overflow!'.format(self.config.overflow))
         return val
+
+    def _scale(self, val, conv_factor, raw=False):
+        # val * conv_factor; for a negative n_frac a non-zero float must not vanish when the product underflows to zero:
+        # ceil and floor need its sign
+        scaled_val = val * conv_factor
+        if self.n_frac < 0 and not raw and isinstance(scaled_val, (np.ndarray, np.generic)) and scaled_val.dtype != object and \
+            np.issubdtype(scaled_val.dtype, np.floating):
+            _vanished = (scaled_val == 0) & (val != 0)
+            if np.any(_vanished):
+                scaled_val = np.where(_vanished, np.copysign(5e-324, val), scaled_val)
+        return scaled_val
 
     def _round(self, val, method='floor'):
         if isinstance(val, int) or np.issubdtype(np.array(val).dtype, np.integer):
